@@ -47,6 +47,7 @@ func c06(c *Ctx) {
 	c06subset(c)
 	c06available(c)
 	c06numaSplit(c)
+	c06entry(c)
 
 	// ---- MIRROR
 	r.Rule("MIRROR: the effect sets of addPodAllocation and release over the receiver's fields have the same roots and dual operations (mapstore<->mapdelete, Insert<->delete, Add<->Subtract*, RefCount+1<->RefCount-1) on the same amount operand")
@@ -895,4 +896,50 @@ func keysInt(m map[int64]bool) []int64 {
 	}
 	sort.Slice(out, func(i, j int) bool { return out[i] < out[j] })
 	return out
+}
+
+// c06entry: the manager's entry points always reach the ledger.
+func c06entry(c *Ctx) {
+	r := c.R
+	r.Decides("resourceManager.Update reaches NodeAllocation.update with the caller's allocation whenever the node's CPU topology is valid (no shortcut in front of the ledger: a pod's NUMA resources can change while its CPU set stays the same), and resourceManager.Release reaches NodeAllocation.release with the caller's UID")
+	r.Rule("PATH(entry): in resourceManager.Update, with CPUTopology.IsValid()==true, no return is reachable without NodeAllocation.update(<allocation parameter>, ..) under the node's write lock; in resourceManager.Release no return is reachable without NodeAllocation.release(<uid parameter>)")
+	if fn := c.Fn(numaPkg, "resourceManager", "Update"); fn != nil {
+		f := an.Facts{}
+		for _, cl := range an.Calls(fn, false) {
+			if an.ShortCallee(cl.Common()) == "IsValid" && cl.Value() != nil {
+				f[cl.Value()] = an.True
+			}
+		}
+		var upd ssa.CallInstruction
+		reach := an.Explore(fn, nil, f, func(in ssa.Instruction) bool {
+			if cl, ok := in.(ssa.CallInstruction); ok && an.CalleeName(cl.Common()) == "(*"+load.Module+"/"+numaPkg+".NodeAllocation).update" {
+				upd = cl
+				return true
+			}
+			return false
+		})
+		arg := upd != nil && isParamOf(fn, upd.Common().Args[1], 1)
+		held := false
+		if upd != nil {
+			for k, w := range an.NewAnyLocks().HeldAt(upd) {
+				if w && strings.Contains(k, "lock") {
+					held = true
+				}
+			}
+		}
+		r.Check(len(f) > 0 && upd != nil && len(reach.Returns()) == 0 && arg && held, "PATH", fkey(fn)+"=>NodeAllocation.update", c.Pos(fn.Pos()), "every update reaches the ledger",
+			sprintf("an update of a pod's allocation can finish without NodeAllocation.update (validity test found=%v, call found=%v, with the caller's allocation=%v, under the write lock=%v): the ledgers keep the previous version of the allocation", len(f) > 0, upd != nil, arg, held))
+	}
+	if fn := c.Fn(numaPkg, "resourceManager", "Release"); fn != nil {
+		var rel ssa.CallInstruction
+		reach := an.Explore(fn, nil, nil, func(in ssa.Instruction) bool {
+			if cl, ok := in.(ssa.CallInstruction); ok && an.CalleeName(cl.Common()) == "(*"+load.Module+"/"+numaPkg+".NodeAllocation).release" {
+				rel = cl
+				return true
+			}
+			return false
+		})
+		arg := rel != nil && isParamOf(fn, rel.Common().Args[1], 1)
+		r.Check(rel != nil && len(reach.Returns()) == 0 && arg, "PATH", fkey(fn)+"=>NodeAllocation.release", c.Pos(fn.Pos()), "every release reaches the ledger", sprintf("a release can finish without NodeAllocation.release of the caller's UID (call found=%v, caller's UID=%v)", rel != nil, arg))
+	}
 }
